@@ -214,6 +214,47 @@ def rows():
     R.append(dict(name='meid.format[dec]', src='meid', convert=lambda x: M('meid').format(x, format='dec'), check=mk_meid('dec')))
     R.append(dict(name='meid.format[hex]', src='meid', convert=lambda x: M('meid').format(x, format='hex'), check=mk_meid('hex')))
 
+    def mk_meid_keep(fmt):
+        def conv(x):
+            me = M('meid')
+            shown = me.format(x, format=fmt, add_check_digit=True)
+            return me.validate(shown, strip_check_digit=False)
+
+        def chk(c, x, res):
+            me = M('meid')
+            if canon('meid', res) != c:
+                return 'MEID %r shown in %s form with check digit validates (check digit kept) to %r which is not a valid spelling of it' % (c, fmt, res)
+            again = C.outcome(me.validate, res, strip_check_digit=False)
+            if again != ('ok', res):
+                return 'MEID %r: validate(..., strip_check_digit=False) = %r is not valid when fed back (%r)' % (c, res, again[1:2])
+        return conv, chk
+    def mk_meid_cross(kind):
+        def conv(x):
+            me = M('meid')
+            dec_cd = me.format(x, format='dec', add_check_digit=True)
+            hex_cd = me.format(x, format='hex', add_check_digit=True)
+            if kind == 'dec->hex':
+                return me.format(dec_cd, format='hex')
+            if kind == 'hex->dec':
+                return me.format(hex_cd, format='dec')
+            return me.compact(dec_cd, strip_check_digit=False)
+
+        def chk(c, x, res):
+            me = M('meid')
+            r = C.outcome(me.validate, res, strip_check_digit=False)
+            if r[0] != 'ok':
+                return 'MEID %r converted %s with its check digit gives %r, which is not valid (%s)' % (c, kind, res, r[1])
+            if canon('meid', res) != c:
+                return 'MEID %r converted %s gives %r, a different number' % (c, kind, res)
+        return conv, chk
+    for kind in ('dec->hex', 'hex->dec', 'compact(dec)'):
+        conv, chk = mk_meid_cross(kind)
+        R.append(dict(name='meid[%s with check digit]' % kind, src='meid', convert=conv, check=chk))
+
+    for fmt in ('dec', 'hex'):
+        conv, chk = mk_meid_keep(fmt)
+        R.append(dict(name='meid.validate[%s with check digit kept]' % fmt, src='meid', convert=conv, check=chk))
+
     def chk_stnr_country(c, x, res):
         if not (isinstance(res, str) and len(res) == 13 and canon('de.stnr', res) is not None):
             return 'national number %r is not a valid 13-digit tax number' % (res,)
@@ -311,7 +352,8 @@ def run_row(row, tier, rng, viols, keys, counters):
     n = 12 if tier == 'quick' else 150
     base = C.corpus(src, limit=n, rng=rng)
     nums = []
-    for v in base + C.synth_valid(src, n, rng, base=base, leading_zero_bias=0.5):
+    extra = C.synth_alphabet(src, rng, k=2 if tier == 'quick' else 6) + C.synth_digits_only(src, rng, k=4 if tier == 'quick' else 20)
+    for v in base + C.synth_valid(src, n, rng, base=base, leading_zero_bias=0.5) + extra:
         c = canon(src, v)
         if c is not None and c not in nums and row.get('keep', lambda v: True)(c):
             nums.append(c)
